@@ -6,14 +6,14 @@ open Lean HL.Index HL.Workspace HL.WsDocs
 
 /-!
   Driver op `c09.docs`: the real Server in workspace mode, driven by didOpen / didChange /
-  didSave notifications (harness/c09docs.go), against the model HL/Model/WsDocs.lean.
+  didSave / didClose notifications (harness/c09docs.go), against the model HL/Model/WsDocs.lean.
 
     cfg, limit   which workspace repairs the code under test contains (as in c12.run)
     files        the directory: [{n, t, c}] (name, text, contribution computed by the real parser)
-    events       [{k: "open"|"change"|"save", n, t, c}]
+    events       [{k: "open"|"change"|"save"|"close", n, t, c}]
     impl         {root, init: view, steps: [{view, order}]} of Server.Workspace() after each event
 
-  model   = the same from `dstep true`;
+  model   = the same from `dstep {}` (every handler repair on);
   spec_ok = after every event the IMPLEMENTATION's workspace view is the view of a workspace
             rebuilt on what the client sees (buffers over disk) — judged by HL.Spec.Rebuild.viewOk,
             the judgement of C12, applied to the client's view instead of the disk.
@@ -34,6 +34,7 @@ def toEv (e : EvJ) : Ev :=
   match e.kind with
   | "open" => .openDoc e.name e.c
   | "change" => .change e.name e.c
+  | "close" => .close e.name
   | _ => .save e.name
 
 def docs (j : Json) : Json := Id.run do
@@ -59,13 +60,19 @@ def docs (j : Json) : Json := Id.run do
     -- domain: an existing file of the view, include list kept
     match e.kind with
     | "save" => pure ()
+    | "close" =>
+      match disk.get e.name, clientView.get e.name with
+      | some c, some c0 =>
+        if e.name == "" || !contribOk c || resolveIncl e.name c.incs != resolveIncl e.name c0.incs then
+          calm := false
+      | _, _ => calm := false
     | _ =>
       match clientView.get e.name with
       | some c0 =>
         if e.name == "" || !contribOk e.c || resolveIncl e.name e.c.incs != resolveIncl e.name c0.incs then
           calm := false
       | none => calm := false
-    s := dstep true cfg s (toEv e)
+    s := dstep {} cfg s (toEv e)
     let (v, w') := observe s.w
     stepsJ := stepsJ.push (Json.mkObj [("view", viewJson v), ("order", jstrs s.w.order)])
     s := { s with w := w' }
@@ -73,6 +80,7 @@ def docs (j : Json) : Json := Id.run do
     match e.kind with
     | "open" => bufs := bufs.set e.name e.c
     | "change" => if (bufs.get e.name).isSome then bufs := bufs.set e.name e.c
+    | "close" => bufs := bufs.erase e.name
     | _ =>
       match bufs.get e.name with
       | some c => disk := disk.set e.name c
